@@ -26,6 +26,7 @@ from common import Violation
 
 TITLE = "mismatch checker accepts exactly the valid sequences"
 LEVEL = "proof"
+DOMAINS = ['Check', 'Design']
 
 CAP_VALID = 300
 
@@ -360,6 +361,33 @@ def model_verdict(block, r):
 UNDETERMINED = ("pred-domain", "layout", "loop")
 
 
+def rows_wire(block, sample):
+    """The candidate as rows in the order of block.design (input of theorem C17_mismatch_iff_valid), or None
+    when the design has hidden / repeated factors or the sample lacks one."""
+    from sweetpea._internal.primitive import HiddenName
+    design = list(block.design)
+    rows = []
+    seen = set()
+    for f in design:
+        if isinstance(f.name, HiddenName) or f.name in seen or f.name not in sample:
+            return None
+        seen.add(f.name)
+        levels = list(f.levels)
+        row = []
+        for v in sample[f.name]:
+            if v == "":
+                row.append(-1)
+                continue
+            li = len(levels)
+            for j, l in enumerate(levels):
+                if v == l.name:
+                    li = j
+                    break
+            row.append(li)
+        rows.append(row)
+    return rows
+
+
 # --------------------------------------------------------------------------- classification of failures
 
 def classify(program, block, ds, seq, valid, real):
@@ -535,6 +563,9 @@ def run(ctx, res):
         pr["wires"] = wires
         lines.append("(valid %s %s)" % (docsem.to_wire(ds.sem), docsem.to_wire(qs)) if qs else "")
         lines.append("(mismatches %s %s)" % (pr["flat"], docsem.to_wire([w for w in wires if w is not None])) if qs else "")
+        rws = [rows_wire(blk, smp) for smp in pr["samples"]]
+        pr["rows"] = rws
+        lines.append("(fragcheck %s %s)" % (pr["flat"], docsem.to_wire([r for r in rws if r is not None])) if qs else "")
     outs = ctx.model(lines)
     corr_bad = []
     found = {}
@@ -542,7 +573,7 @@ def run(ctx, res):
         if not pr["cands"]:
             continue
         ds, blk, program = pr["ds"], pr["block"], pr["program"]
-        ov, mv = outs[2 * k], outs[2 * k + 1]
+        ov, mv, fv = outs[3 * k], outs[3 * k + 1], outs[3 * k + 2]
         if ov.startswith("!") or mv.startswith("!"):
             stats["programs:model-failed"] += 1
             corr_bad.append((pr["name"], program, None, "model/oracle command failed: %s %s" % (ov[:80], mv[:80])))
@@ -551,8 +582,17 @@ def run(ctx, res):
         ovalid = [x == "true" for x in common.parse_sexp(ov)[0]]
         mlines = common.parse_sexp(mv)[0]
         mit = iter(mlines)
+        # the fragment of theorem C17_mismatch_iff_valid, evaluated by the extracted definitions
+        in_frag = False
+        fit = iter(())
+        if not fv.startswith("!"):
+            fr = common.parse_sexp(fv)
+            in_frag = (fr[0] == "true")
+            fit = iter(fr[1])
+        stats["theorem-fragment:programs:" + ("in" if in_frag else "out")] += 1
+        frag_list = [(next(fit, None) if r is not None else None) for r in pr["rows"]]
         nontrivial = bool(program["constraints"]) or any(f["kind"] == "derived" for f in program["factors"]) or bool(blk.crossings)
-        for (kind, q), smp, wv, valid in zip(pr["cands"], pr["samples"], pr["wires"], ovalid):
+        for (kind, q), smp, wv, valid, fragv in zip(pr["cands"], pr["samples"], pr["wires"], ovalid, frag_list):
             if wv is None:
                 stats["cands:unresolvable-key"] += 1
                 continue
@@ -573,6 +613,16 @@ def run(ctx, res):
                 res.layer("L7:mismatch-verdict", ok)
                 if not ok:
                     corr_bad.append((pr["name"], program, smp, "real %r model %r" % (real, model)))
+            # --- the theorem instance: inside nfrag and wf_rowsb, no_mismatch = valid_b (code_sem_n fb), both extracted
+            if in_frag and fragv is not None and fragv[0] == "true":
+                ok_t = (fragv[1] == fragv[2])
+                res.layer("theorem-instance:no_mismatch=valid_b(code_sem_n)", ok_t)
+                if not ok_t:
+                    corr_bad.append((pr["name"], program, smp, "extracted theorem instance fails: %r" % (fragv,)))
+                stats["theorem-fragment:candidates"] += 1
+                # code_sem_n fb vs doc_sem program on this candidate (T2: chunk geometry, windows, trial count)
+                if (fragv[2] == "true") != valid:
+                    stats["theorem-fragment:code_sem-vs-doc_sem-differ"] += 1
             # --- search: the property itself, on candidates of its domain
             dom = in_domain(ds, pr["app"], q)
             stats["domain:" + ("in" if dom else "out")] += 1
@@ -640,6 +690,9 @@ def replay(ctx, data):
     blk = ir.main_block(built, program)
     if blk is None:
         return False
+    with ir.quiet():
+        if any("WARNING" not in e for e in blk.errors) or blk.trials_per_sample() != ds.T:
+            return False   # not an accepted design / trial count differs (C16): outside this check's judgement
     real = real_verdict(blk, data["sample"])
     q = docsem.seq_of_sample(ds, data["sample"])
     valid = designrun.oracle_valid(ds, [q])[0] if q is not None else False
